@@ -22,3 +22,4 @@ open Cherab.Props.C06
 #print axioms prep_id_of_lower_classes
 #print axioms prep_id_of_tables
 #print axioms pec_mixed_case_class_reads_other_entry
+#print axioms front_ends_write_under_root
